@@ -27,6 +27,8 @@ def one(d):
     finally: shutil.rmtree(tmp, ignore_errors=True)
 if __name__ == "__main__":
     confirm = "--confirm" in sys.argv; imp = "--import" in sys.argv
+    tag = ""
+    if "--tag" in sys.argv: i_ = sys.argv.index("--tag"); tag = sys.argv[i_ + 1] + "-"; del sys.argv[i_:i_ + 2]
     dirs = [a for a in sys.argv[1:] if not a.startswith("--")]
     if not dirs:
         b = os.path.join(VERIF, "benign"); dirs = [os.path.join(b, x) for x in sorted(os.listdir(b))] if os.path.isdir(b) else []
@@ -54,7 +56,7 @@ if __name__ == "__main__":
         for a in alarms: print("     FALSE-ALARM " + a); fa += 1
         for e in errs: print("     analysis-error " + e)
         if imp and st == "ok":
-            parts = d.strip("/").split("/"); dst = os.path.join(VERIF, "benign", "%s-b%s" % (parts[-2], parts[-1]))
+            parts = d.strip("/").split("/"); dst = os.path.join(VERIF, "benign", "%s-b%s%s" % (parts[-2], tag, parts[-1]))
             if not os.path.exists(dst):
                 os.makedirs(dst)
                 for f in ("patch.diff", "meta.json"):
